@@ -23,7 +23,8 @@ static CallCtx* top_ctx() {
 }
 static void log_clause(char kind, int id, int k, long v, const void* a1, const void* a2) {
   if (!g_cur) return;
-  g_cur->cur_obs().clauses.push_back(ClauseEv{kind, id, k, v, a1, a2});
+  long ms = (id >= 0 && static_cast<size_t>(id) < g_cur->M.exps.size()) ? g_cur->M.exps[static_cast<size_t>(id)].snap : 0;
+  g_cur->cur_obs().clauses.push_back(ClauseEv{kind, id, k, v, a1, a2, ms});
 }
 bool w(int id, int k, bool cond) { log_clause('W', id, k, cond ? 1 : 0, nullptr, nullptr); return cond; }
 void se(int id, int k, int snap, const void* a1, const void* a2) {
@@ -177,7 +178,7 @@ void ExecImpl::step(const Op& op, bool nested) {
   X(p_saturated_nomatch) X(p_seq_mismatch) X(p_passed_entry) X(p_release_unfulfilled) X(p_release_named) \
   X(p_moved_mock_call) X(p_seq_destroy_nonempty) X(p_monitor_ok) X(p_monitor_unexpected) X(p_monitor_still_alive) \
   X(p_monitor_seq_violation) X(p_with_rejects) X(p_lr_differs) X(p_trace_records) X(p_ok_reports) X(p_rt_inverted) \
-  X(p_call_after_handler_death) X(p_multi_monitor) X(p_assign_watched) X(flag_observations)
+  X(p_multi_monitor) X(p_assign_watched) X(flag_observations)
 
 void Stats::add(const Stats& o) {
   for (int i = 0; i < OP_KIND_COUNT; ++i) ops[i] += o.ops[i];
